@@ -275,6 +275,14 @@ fn plan_base(prop: &str) -> Vec<Item> {
             v.push(it("try_paths", "pool=1,path=0", Some(2), 3));
             v.push(it("try_paths", "pool=1,path=2", Some(2), 3));
             v.push(it("try_paths", "pool=1,path=4", Some(2), 3));
+            // future operations whose future is detached, never polled, or polled once and then left alone: the pool finishes them
+            for pool in [1, 2] {
+                for mode in [2, 4, 5] {
+                    v.push(it("fd_result", &format!("pool={},mode={}", pool, mode), Some(if pool == 1 { 2 } else { 1 }), if pool == 1 { 3 } else { 2 }));
+                }
+            }
+            v.push(it("fd_result", "pool=1,mode=5,selfwake=1", Some(2), 3));
+            v.push(it("fd_result", "pool=1,mode=2,after=1", Some(2), 3));
             v.push(it("wake_ctx", "pool=1,kind=0,ctx=0,wake=0", Some(2), 4));
             v.push(it("pipe_in_items", "pool=1,n=2,pat=1,conc=2", Some(1), 2));
             v.extend(prog_sweep(&["D", "Dn", "Dx", "Sn", "FDd", "AF"], &[1], Some(1), 2, Some(1), 1));
@@ -489,6 +497,11 @@ fn plan_base(prop: &str) -> Vec<Item> {
             // (the seeded spawn race C10-c needs 2 preemptions here)
             v.push(it("indep_race", "pool=3,n=2", Some(1), 2));
             v.push(it("indep_race", "pool=3,n=3", Some(0), 1));
+            // a caller is despawning surplus threads (one of them pinned) while free objects are used
+            v.push(it("indep_despawn", "pool=2,keep=1", Some(2), 3));
+            for keep in [0, 1, 2] {
+                v.push(it("indep_despawn", &format!("pool=3,keep={}", keep), Some(1), 2));
+            }
         }
         "C11" => {
             for n in [0, 1, 2] {
@@ -607,6 +620,11 @@ fn plan_base(prop: &str) -> Vec<Item> {
                 v.push(it("pool_census", &format!("pool={},n=2,phases=3", pool), Some(if pool == 1 { 2 } else { 1 }), if pool == 1 { 3 } else { 2 }));
             }
             v.push(it("pool_census", "pool=1,n=2,phases=4", Some(1), 2));
+            // the despawned threads' jobs schedule more work while the caller is joining them
+            v.push(it("pool_census", "pool=1,n=2,phases=3,nest=1", Some(2), 3));
+            v.push(it("pool_census", "pool=2,n=2,phases=3,nest=1", Some(1), 2));
+            v.push(it("indep_despawn", "pool=2,keep=1", Some(1), 2));
+            v.push(it("indep_despawn", "pool=3,keep=2", Some(1), 2));
             v.push(it("pool_census", "pool=2,n=2,phases=4", Some(0), 1));
             // the public set_max_threads (eager thread start) instead of the hook, also racing with scheduling calls
             for pool in [0, 1, 2] {
@@ -672,10 +690,10 @@ pub fn owners(scenario: &str, part: &str) -> Vec<&'static str> {
     let liveness: Vec<&'static str> = match scenario {
         "sync_states" | "f3_sync_sync" | "f3_nested_sync" | "sync_wipe" => vec!["C04", "C03"],
         "wake_ctx" | "wake_stale_entry" => vec!["C06"],
-        "fd_result" | "fd_two" => vec!["C07", "C04"],
+        "fd_result" | "fd_two" => vec!["C07", "C04", "C03"],
         "fs_cancel" | "fs_nested" => vec!["C08"],
         "try_paths" | "f1_try_sync_idle_nonempty" => vec!["C09", "C03"],
-        "indep" | "indep_stale" | "indep_race" => vec!["C10"],
+        "indep" | "indep_stale" | "indep_race" | "indep_despawn" => vec!["C10"],
         "drop_obj" => vec!["C05"],
         "suspend" => vec!["C13"],
         "panic_contain" => vec!["C15"],
